@@ -129,7 +129,7 @@ class NetCheck(check.Check):
 class C02(NetCheck):
     pid = "C02"
     profile = "mixed"
-    quick = dict(cases=2500, budget=90, timeout=120)
+    quick = dict(cases=3500, budget=90, timeout=120)
     thorough = dict(cases=60000, budget=1200, timeout=300)
 
     def gen_options(self, r):
